@@ -222,6 +222,7 @@ impl<S: Storage> Builder<S> {
                     .map(|id| self.node(*id).as_column())
                     .collect_vec();
                 // analyze range filter
+                let filter_id = filter;
                 let filter = {
                     use std::ops::Bound;
                     let mut egraph = egg::EGraph::new(ExprAnalysis::default());
@@ -269,13 +270,22 @@ impl<S: Storage> Builder<S> {
                     }
                     .execute()
                 } else {
-                    TableScanExecutor {
+                    // A scan filter that is not a key range (e.g. a contradictory range condition
+                    // folded to `false`) can not be handed to the storage: evaluate it here.
+                    let residual = (filter.is_none()
+                        && !matches!(self.node(filter_id), Constant(crate::types::DataValue::Bool(true))))
+                    .then(|| self.resolve_column_index(filter_id, id));
+                    let scan = TableScanExecutor {
                         table_id,
                         columns,
                         filter,
                         storage: self.storage.clone(),
                     }
-                    .execute()
+                    .execute();
+                    match residual {
+                        Some(condition) => FilterExecutor { condition }.execute(scan),
+                        None => scan,
+                    }
                 }
             }
 
